@@ -9,19 +9,11 @@ from . import core_folds as cf
 from .common import is_name, params, returns_of
 from .vector_rules import check_component_map, VECTOR
 
-EXPLANATION = (
-    "Static rules on core/datagroup.py, core/array.py, core/vector.py: (R1) in Datagroup.__setitem__ the shape test and "
-    "its raise dominate every store and every mutation of the group or of the value; the shape it tests is derived from "
-    "the current members (any cached copy must be maintained by every method that changes the member set); (R2) single "
-    "writer: only __setitem__ stores into the backing dict, __init__/update insert through it, no bulk dict.update, no "
-    "other module touches the backing dict; (R3) non-string indexing applies ONE index object to ALL members and sortby "
-    "applies ONE permutation (argsort of the key, computed before the loop) to ALL members; (R4) Vector indexing applies "
-    "the same index to every component, Array indexing passes the index straight to the buffer keeping unit and name; "
-    "names survive group indexing because re-insertion renames, or else every member's __getitem__ keeps its name.")
-NOT_DECIDED = ("numpy's indexing semantics for each index kind; the induction that R1+R2 imply equal shapes after every "
-               "history is argued, not mechanised")
-TRUSTED = ("CPython ast", "numpy indexing semantics")
+EXPLANATION = 'Folds of the Datagroup class interpreted over token members: (R1) finite histories of insert/replace/update/delete/pop with members of equal and unequal length and scalar members: a mis-shaped item is rejected with the group and the value unchanged, every stored item is renamed to its key; (R2) no function outside core/datagroup.py touches the backing dict (resolved attribute sweep); (R3) group[int|slice|mask|mask as Array|index array] and sortby(name|index list|None): every member (Arrays and Vector components) is indexed with ONE object, units and names kept; members with names the class itself compares against; aliased members (same Array under two names, Vector component stored as a member) permuted once; (R4) Vector mapping methods act on every component; Array.__getitem__ over index kinds x the dtype model (integer/bool Array indexes accepted, others rejected, Vector rejected).'
+NOT_DECIDED = "numpy's fancy-indexing semantics themselves; members of dimension > 1"
+TRUSTED = ('CPython ast', 'numpy indexing', 'the interpreter sa/models.py (ModelEval) and its library models')
 
+TECHNIQUE = 'static analysis: abstract interpretation of the container classes over token members (finite histories), resolved who-may-access sweep'
 
 def r1_gate(run, tree):
     run.rule("C06.R1", "insertion gate over finite histories: mis-shaped items rejected with the group and the value unchanged, in every "
